@@ -440,6 +440,13 @@ where
         }
     }
 
+    /// Iterates over the edges that were created by calling `connect` on
+    /// this node, i.e. every incident edge exactly once over all nodes.
+    pub(crate) fn iter_outbound(&self) -> std::iter::Take<NodeIterator<'_, K, N, E>> {
+        let len = self.inner.2.borrow().len_outbound();
+        self.iter().take(len)
+    }
+
     pub fn sizeof(&self) -> usize {
         std::mem::size_of::<Node<K, N, E>>()
             + std::mem::size_of::<K>()
